@@ -1,4 +1,5 @@
 import Woodpile.Driver.Util
+import Woodpile.Driver.IterScript
 import Woodpile.Model.SortedDeque
 import Woodpile.Model.DequeTraits
 import Woodpile.Driver.Unwind
@@ -15,6 +16,7 @@ erased item.  Op vocabulary:
   pop_first | pop_last | first | last | is_empty | iter | clear
   new k:v,k:v,...      `SortedDeque::new(container, ())`
   at n <op>            restart from snapshot n, run <op>, record snapshot n+1 (as in `sdeque`)
+  iterscript <script>  iterator-protocol script (`Model/IterScript.lean`) on `iter()`; no state change
 
 Every op answers one line: the return value, then `iter()`, `first()`, `last()`, `is_empty()`
 and `find` of the probe keys 0..5 (whole-item convention: `(k, 10k+1)` and `(k, None)`),
@@ -190,6 +192,15 @@ def stepWith (cv : Conv) (st : St) (ws : List String) : St × List String :=
           | none => ({ st with cur := none, snaps := st.snaps.take (k + 1) }, ["panic"])
           | some line => ({ st with cur := some s', snaps := st.snaps.take (k + 1) ++ [s'] }, [line])
     | _, _ => (st, ["bad-op"])
+  | ["iterscript", script] =>
+    -- `SortedDeque::iter()`: forward only; the list `iter` gives; no state change
+    match st.cur with
+    | none => (st, ["dead"])
+    | some s =>
+      match IterScriptText.parseScript script, s.iter cv.c with
+      | none, _ => (st, ["bad-op"])
+      | some _, none => ({ st with cur := none }, ["panic"])
+      | some steps, some l => (st, [IterScriptText.scriptObs (l.map fmtItem) steps false])
   | _ =>
     match stepTraits cv st ws with
     | some r => r
@@ -221,6 +232,7 @@ def unwindSafe (st : St) (ws : List String) : Bool :=
   | "at" :: _ => false
   | "new" :: _ => false
   | "conv" :: _ => false
+  | "iterscript" :: _ => false
   | _ => st.cur.isSome && !((stepLine st ws).2.contains "panic") && !((stepLine st ws).2.contains "bad-op")
 
 def family : Family := withUnwind { σ := St, init := initSt false, step := stepLine } unwindSafe
